@@ -386,7 +386,7 @@ int main( int argc, char** argv )
     vcase::Case c;
     while ( vcase::read_case( in, c )) {
         g_case = &c;
-        alarm( 8 );
+        alarm( 30 );
         if ( mode == "spin" ) run_spin( c );
         else if ( mode == "re" ) run_re( c );
         else if ( mode == "arr" ) run_arr( c );
